@@ -226,7 +226,90 @@ type c14Scenario struct {
 	Path     string // populate2 | populate
 }
 
+// c14Restart: the whole history is applied while no dispatcher runs (the events queue up, far fewer than the buffer holds);
+// a dispatcher is started on an already closed stop channel (it may deliver some events before it notices), then another
+// one is started: every event must still arrive, once, in order (events may be dropped only when the buffer overflows).
+func c14Restart(r *ev.Run, dbs *schemas.DB, ref *rm.Schema, alpha []c14Note, sc c14Scenario) {
+	var hnames []string
+	for _, i := range sc.Hist {
+		hnames = append(hnames, alpha[i].Name)
+	}
+	name := fmt.Sprintf("%v handlers=%d restart", hnames, sc.Handlers)
+	l := logr.Discard()
+	tc, err := cache.NewTableCache(dbs.DBModel(), nil, &l)
+	if err != nil {
+		panic(err)
+	}
+	var total int64
+	var hs []*c14Handler
+	for i := 0; i < sc.Handlers; i++ {
+		h := &c14Handler{id: i, total: &total}
+		hs = append(hs, h)
+		tc.AddEventHandler(h)
+	}
+	st := map[string]map[string]rm.Row{"T": {}, "U": {}}
+	expected := 0
+	for _, i := range sc.Hist {
+		n := alpha[i]
+		trial := map[string]map[string]rm.Row{"T": {}, "U": {}}
+		for t, rows := range st {
+			for u, row := range rows {
+				trial[t][u] = row.Clone()
+			}
+		}
+		ok, nev := c14RefApply(ref, trial, n)
+		if !ok {
+			return // histories the cache refuses are covered by the other modes
+		}
+		if err := tc.Populate2(c14Wire(ref, st, n)); err != nil {
+			return
+		}
+		st = trial
+		expected += nev
+	}
+	if expected == 0 {
+		return
+	}
+	stopped := make(chan struct{})
+	close(stopped)
+	done := make(chan struct{})
+	go func() { tc.Run(stopped); close(done) }()
+	select {
+	case <-done:
+	case <-time.After(10 * time.Second):
+		r.Violation("c14.restart.run-does-not-stop", fmt.Sprintf("[%s] Run on a closed stop channel does not return", name), nil)
+		return
+	}
+	stop2 := make(chan struct{})
+	done2 := make(chan struct{})
+	go func() { tc.Run(stop2); close(done2) }()
+	want := int64(expected * sc.Handlers)
+	deadline := time.Now().Add(5 * time.Second)
+	for atomic.LoadInt64(&total) < want && time.Now().Before(deadline) {
+		time.Sleep(200 * time.Microsecond)
+	}
+	close(stop2)
+	select {
+	case <-done2:
+	case <-time.After(10 * time.Second):
+	}
+	r.Add("executions", 1)
+	r.Add("restart_executions", 1)
+	cse := map[string]interface{}{"history": hnames, "handlers": sc.Handlers, "mode": "restart"}
+	if got := atomic.LoadInt64(&total); got < want {
+		r.Violation("c14.restart.events-lost", fmt.Sprintf("[%s] %d events were queued when the dispatcher was stopped and restarted; only %d of %d deliveries arrived", name, expected, got, want), cse)
+		return
+	}
+	if k, msg := c14Oracle(dbs, tc, hs, expected); k != "" {
+		r.Violation("c14."+k+".restart", fmt.Sprintf("[%s] %s", name, msg), cse)
+	}
+}
+
 func c14Explore(r *ev.Run, dbs *schemas.DB, ref *rm.Schema, alpha []c14Note, sc c14Scenario, bound int) {
+	if sc.Mode == "restart" {
+		c14Restart(r, dbs, ref, alpha, sc)
+		return
+	}
 	var hnames []string
 	for _, i := range sc.Hist {
 		hnames = append(hnames, alpha[i].Name)
@@ -517,6 +600,9 @@ func runC14(r *ev.Run) {
 			}
 			if len(h) <= 2 || (h[0]+h[2])%4 == 0 {
 				scs = append(scs, c14Scenario{Hist: append([]int{}, h...), Handlers: nh, Mode: "seq", Path: "apply"})
+			}
+			if len(h) == depth && (h[0]*7+h[1]*3+h[len(h)-1])%5 == 0 {
+				scs = append(scs, c14Scenario{Hist: append([]int{}, h...), Handlers: nh, Mode: "restart", Path: "populate2"})
 			}
 		}
 		if len(h) == depth {
